@@ -31,6 +31,20 @@ func mergeReport(dst, src *Report) {
 	dst.Trusted, dst.NotDecided, dst.Explain = src.Trusted, src.NotDecided, src.Explain
 }
 
+// crossCheck adds to a passing shape report what the result-language engine finds on its own: the obligations it
+// decides (discharged or violated) are recorded next to the shape rules, marked as such; what it cannot follow is
+// no failure while the shape rules recognise the code. A violation found by either engine fails the check.
+func crossCheck(shape *Report, lang *Report) {
+	for _, o := range lang.Obls {
+		if o.Status == Undecided || o.Construct == "vacuity-guard" {
+			continue
+		}
+		o.Construct += " [result language]"
+		shape.Obls = append(shape.Obls, o)
+		shape.Counts[o.Rule]++
+	}
+}
+
 func reportFails(r *Report) bool {
 	for _, o := range r.Obls {
 		if o.Status != Discharged {
@@ -51,6 +65,9 @@ func runC15(p *Program, r *Report) {
 	shape := NewReport("C15", r.Tier, r.Seed)
 	runC15Shape(p, shape)
 	if !reportFails(shape) && os.Getenv("C15_FORCE_LANG") == "" {
+		lang := NewReport("C15", r.Tier, r.Seed)
+		c15ByLanguage(p, lang)
+		crossCheck(shape, lang)
 		mergeReport(r, shape)
 		return
 	}
